@@ -22,12 +22,14 @@ Proof. exact deploy_converged. Qed.
 Print Assumptions C05_converged.
 
 (* each affected root's manifest (it existed, or the root holds desired files, or a change fell in
-   it) lists exactly that root's desired files (best root) with their contents; no other root gets one *)
+   it, or a legacy-named manifest of this target still lists entries there) lists exactly that
+   root's desired files (best root) with their contents; no other root gets one *)
 Theorem C05_manifests_exact : forall st confirmed adopt flt w roots D pl w' i r,
   deploy_cmd st confirmed adopt flt w roots D = (pl, (OApplied, w')) ->
   wfD roots D -> wfM D (managed_for_plan w roots flt) -> nth_error roots i = Some r ->
   files w' (mf_path r) =
   if exists_at (files w) (mf_path r) || negb (is_nil (per_root roots D i r)) || root_had_changes roots pl i
+     || legacy_stale (files w) r
   then Some (new_manifest r (per_root roots D i r)) else None.
 Proof. exact deploy_manifests_exact. Qed.
 Print Assumptions C05_manifests_exact.
